@@ -55,12 +55,12 @@ def run(scenario, cpu=20, wall=180):
 
 
 def run_mc(scenario, cfg, cpu=60, wall=600):
-    """Run the scenario as an application of simgrid-mc.  Returns RunResult (stdout and stderr merged in .out)."""
+    """Run the scenario as an application of simgrid-mc.  Returns RunResult: .out holds the OUTCOME lines of the application, .err the checker's log."""
     import os
     path = core.write_tmp(json.dumps(scenario))
     try:
         cmd = [build.sg_bin("simgrid-mc"), build.drv("s4u_interp"), "--mc", path, "--log=no_loc"] + ["--cfg=" + c for c in cfg]
-        r = core.run(cmd + ["2>&1"] if False else cmd, cpu=cpu, wall=wall, env=build.runtime_env())
+        r = core.run(cmd, cpu=cpu, wall=wall, env=build.runtime_env())
     finally:
         os.unlink(path)
     return r
